@@ -8,6 +8,8 @@ import (
 	"context"
 	"encoding/binary"
 	"fmt"
+	"io"
+	"time"
 
 	p9p "github.com/frobnitzem/go-p9p"
 	"pgregory.net/rapid"
@@ -291,3 +293,86 @@ func firstDiff(a, b []byte) int {
 }
 
 var _ = fmt.Sprintf
+
+// ---- a write in progress while a read on the same channel runs out of time (C02: "either
+// emits exactly one complete frame ... or emits nothing at all")
+
+type RWCase struct {
+	Msg      refwire.Msg
+	First    int // bytes the peer takes at once (1..8), then it stalls
+	Deadline int // ms: deadline of the concurrent ReadFcall
+	Gap      int // ms after that deadline at which the peer takes the rest
+}
+
+func GenRWCase(t *rapid.T) RWCase {
+	m := genWMsg(t)
+	gen.Shrink(&m, 40)
+	return RWCase{Msg: m, First: rapid.IntRange(1, 8).Draw(t, "first"), Deadline: rapid.IntRange(15, 40).Draw(t, "deadline"), Gap: rapid.IntRange(10, 30).Draw(t, "gap")}
+}
+
+func RunRW(c RWCase) harn.Result {
+	a, b := memconn.NewPair(memconn.Options{Rendezvous: true}) // like net.Pipe: a write returns when the peer has taken the bytes, and honours deadlines
+	defer a.Close()
+	defer b.Close()
+	ch := p9p.NewChannel(a, 65536)
+	m := c.Msg
+	want := m
+	if want.Kind == refwire.Tread && int64(want.Count) > 65536-11 {
+		want.Count = 65536 - 11 // a read request's count is lowered so that its reply fits
+	}
+	full := refwire.Frame(&want)
+	first := c.First
+	if first >= len(full) {
+		first = len(full) - 1
+	}
+	start := time.Now()
+	got := make(chan []byte, 1)
+	go func() {
+		buf := make([]byte, 0, len(full)+16)
+		tmp := make([]byte, first)
+		n, _ := io.ReadFull(b, tmp)
+		buf = append(buf, tmp[:n]...)
+		time.Sleep(time.Until(start.Add(time.Duration(c.Deadline+c.Gap) * time.Millisecond)))
+		b.SetReadDeadline(time.Now().Add(300 * time.Millisecond))
+		rest := make([]byte, len(full)+16)
+		for {
+			n, err := b.Read(rest)
+			buf = append(buf, rest[:n]...)
+			if err != nil || len(buf) >= len(full) {
+				break
+			}
+		}
+		got <- buf
+	}()
+	werr := make(chan error, 1)
+	go func() { werr <- ch.WriteFcall(context.Background(), gen.ToFcall(&m, 0)) }()
+	time.Sleep(2 * time.Millisecond)
+	rctx, cancel := context.WithDeadline(context.Background(), start.Add(time.Duration(c.Deadline)*time.Millisecond))
+	defer cancel()
+	rerr := make(chan error, 1)
+	go func() { rerr <- ch.ReadFcall(rctx, new(p9p.Fcall)) }()
+	var err error
+	select {
+	case err = <-werr:
+	case <-time.After(10 * time.Second):
+		return harn.Fail("WriteFcall(%s) did not return within 10s although the peer took the whole frame", refwire.KindName[m.Kind])
+	}
+	emitted := <-got
+	select {
+	case <-rerr: // what the read returns is not C02's business
+	case <-time.After(50 * time.Millisecond):
+	}
+	switch {
+	case len(emitted) == 0:
+		if err == nil {
+			return harn.Fail("WriteFcall(%s) returned success but nothing was emitted", refwire.KindName[m.Kind])
+		}
+		return harn.Fail("WriteFcall(%s) with a live context emitted nothing and failed with %v while a ReadFcall on the same channel ran into its %d ms deadline", refwire.KindName[m.Kind], err, c.Deadline)
+	case !bytes.Equal(emitted, full):
+		return harn.Fail("WriteFcall(%s, frame of %d bytes) emitted %d bytes - not one complete frame - and returned %v; a ReadFcall on the same channel ran into its %d ms deadline while the peer had taken %d bytes",
+			refwire.KindName[m.Kind], len(full), len(emitted), err, c.Deadline, first)
+	case err != nil:
+		return harn.Fail("WriteFcall(%s) emitted the complete frame but returned %v", refwire.KindName[m.Kind], err)
+	}
+	return harn.Result{NonTrivial: true, Classes: []string{"write_across_read_deadline"}}
+}
